@@ -1,21 +1,27 @@
 import Driver.QuadCmd
+import Driver.MeshCmd
 /- stbem-driver: one protocol line in, one canonical line out. -/
 open Driver
 
-def dispatch (line : String) : String :=
+structure St where
+  mesh : Option Stbem.Mesh.Mesh := none
+
+def dispatch (st : St) (line : String) : St × String :=
   let args := (line.trimAscii.toString.splitOn " ").filter (· ≠ "")
   match args with
-  | [] => ""
-  | "q1" :: _ | "q2" :: _ | "q3" :: _ | "slo" :: _ => quadCmd args
-  | _ => "bad-op"
+  | [] => (st, "")
+  | "q1" :: _ | "q2" :: _ | "q3" :: _ | "slo" :: _ => (st, quadCmd args)
+  | "mesh" :: _ => let r := meshCmd st.mesh args; ({ st with mesh := r.1 }, r.2)
+  | _ => (st, "bad-op")
 
-partial def loop (h : IO.FS.Stream) (out : IO.FS.Stream) : IO Unit := do
+partial def loop (h : IO.FS.Stream) (out : IO.FS.Stream) (st : St) : IO Unit := do
   let line ← h.getLine
   if line.isEmpty then return ()
-  out.putStrLn (dispatch line)
-  loop h out
+  let (st', o) := dispatch st line
+  out.putStrLn o
+  loop h out st'
 
 def main : IO Unit := do
   let out ← IO.getStdout
-  loop (← IO.getStdin) out
+  loop (← IO.getStdin) out {}
   out.flush
